@@ -20,6 +20,31 @@ strategy = os.environ.get("CF_STRATEGY", "latest")
 sched = os.environ.get("CF_SCHED", "111")
 plots = os.environ.get("CF_PLOTS", "0") == "1"
 total = int(os.environ.get("CF_TOTAL", str(len(sched))))
+fresh = os.environ.get("CF_FRESH", "")
+resume = os.environ.get("CF_RESUME") == "1"
+# the seed sequence pushed for every iteration (identity = entropy + spawn key), logged next to the file-system events
+import importlib
+okl = importlib.import_module("nifty.cl.minimization.optimize_kl")
+_push = okl.push_sseq
+_first = 0
+_mk = os.path.join(ROOT, "out", "last_finished_iteration")
+if resume and os.path.exists(_mk):
+    with crashfs._real_open(_mk) as f:
+        _first = int(f.read()) + 1
+_calls = [0]
+
+
+def _logged_push(ss):
+    with crashfs._real_open(os.path.join(ROOT, "streams.ndjson"), "a") as f:
+        f.write(json.dumps(dict(resume=int(resume), it=_first + _calls[0], entropy=str(ss.entropy), key=[int(k) for k in ss.spawn_key],
+                                k=crashfs._state["n"])) + "\n")
+    _calls[0] += 1
+    _push(ss)
+
+
+okl.push_sseq = _logged_push
+if resume and os.environ.get("CF_OTHERSTATE") == "1":
+    ift.random.push_sseq_from_seed(987654)      # the restarted process is in another random state than the one that started the run
 dom = ift.RGSpace(4)
 d = ift.makeField(dom, np.array([1., 2., 3., 4.]))
 lh = ift.GaussianEnergy(d, ift.ScalingOperator(dom, 4., np.float64)) @ (ift.FieldAdapter(dom, "a").exp())
@@ -28,7 +53,7 @@ mini = ift.NewtonCG(ift.AbsDeltaEnergyController(1e-6, iteration_limit=3))
 res = ift.optimize_kl(lh, total, (lambda i: int(sched[i])), mini, ic, nonlinear_sampling_minimizer=None,
                       output_directory=os.path.join(ROOT, "out"), save_strategy=strategy,
                       plot_energy_history=plots, plot_minisanity_history=plots, resume=(os.environ.get("CF_RESUME") == "1"),
-                      return_final_position=True,
+                      return_final_position=True, fresh_stochasticity=(True if not fresh else (lambda i: fresh[i] == "1")),
                       initial_position=ift.MultiField.from_dict({"a": ift.makeField(dom, np.array([.1, .2, .3, .4]))}))
 sl, mean = res
 h = hashlib.sha256()
